@@ -153,6 +153,7 @@ var passVars = []string{"NFPM_PASSPHRASE", "NFPM_DEB_PASSPHRASE", "NFPM_RPM_PASS
 func c16(run *ev.Run, tier string) {
 	nenv := ncases(1, 50, tier)
 	run.Rule = "part 1 (exhaustive): a document with a value at every key path of nfpm.Config (built by reflection from nfpm's own types) is walked in parallel with the Go types; at EVERY mapping that decodes into a struct (root, format blocks, scripts, signature, triggers, contents entries, file_info, alternatives, every override block ...) one unknown key is injected per misspelling class (typo, case change, Go field name instead of yaml name, key valid at another level, brand-new key): ParseWithEnvMapping must fail. part 2: every field documented as expandable in configuration.md x {no '$', $V, ${V}, embedded, undefined variable, variable expanding to empty, to blanks}; content src/dst with and without expand: true; the env-mapping callback is a recorder: names referenced only in non-opt-in entries must never be looked up, names in expandable fields must be. part 3: '$'-free documents parse to the same result under a hostile environment; list items are trimmed, items expanding to nothing dropped. part 4 (exhaustive): all 16 set/unset combinations of the four passphrase variables. Also: keys of the removed v1 format as unknown keys; a reader failing at every line boundary; every string leaf of a full document set to $NAME for NAME in {VERIF_LEAF, PWD, HOME, PATH, TMPDIR, USER, OLDPWD} with mappings that define it, define it as empty, or define it as text containing another reference (single pass). non-trivial = injection at a nested (non-root) mapping / a field value that references a variable; distinct = (site, class) / (field, value shape, env)"
+	run.Rule += "; part 6 (the nfpm binary): variable values containing '=', references to unset variables in description / homepage / a depends item, documents from the standard input"
 	run.Rule += "; an expand: true entry whose substituted text still holds a '$'; inner white space of list items; through the nfpm binary: variable values containing '=', unknown keys in a document on standard input"
 	run.SetExhaustive(true)
 	var parses, injections int
